@@ -8,9 +8,11 @@ import (
 	"unicode/utf8"
 
 	"go.pennock.tech/tabular"
+	"go.pennock.tech/tabular/auto"
 	"go.pennock.tech/tabular/csv"
 	"go.pennock.tech/tabular/html"
 	"go.pennock.tech/tabular/length"
+	"go.pennock.tech/tabular/properties"
 	"go.pennock.tech/tabular/texttable"
 	"go.pennock.tech/tabular/texttable/decoration"
 
@@ -157,6 +159,18 @@ func CheckCase(cs Case) *ev.Violation {
 	if v := allShow(t, want2); v != nil {
 		return v
 	}
+	// C: the same item in a headed table whose column is marked skipable (every renderer has something to read there)
+	live3 := gen.Materialise(cs.Item)
+	want3 := gen.TextForm(cs.Item, live3)
+	t3 := tabular.New()
+	t3.AddHeaders("h")
+	t3.AddRowItems(live3.V)
+	t3.Column(1).SetProperty(properties.Skipable, true)
+	t3.Column(0).SetProperty(properties.Skipable, true)
+	tc3, err := t3.CellAt(tabular.CellLocation{Row: 1, Column: 1})
+	if err != nil {
+		return ev.V("CellAt(1,1) of a headed table: %v", err)
+	}
 	if cs.Mut == nil || !Mutable(cs.Item) {
 		// Update without mutation changes nothing
 		c.Update()
@@ -168,6 +182,13 @@ func CheckCase(cs Case) *ev.Violation {
 	// every read-only accessor, debugging dump and formatter may run in between: none of them is an Update
 	readOnly(&c, nil)
 	readOnly(tc, t)
+	applyMut(live3, cs.Item, *cs.Mut)
+	for _, style := range []string{"json", "csv", "html", "markdown", "utf8-light", "none"} {
+		auto.Render(t3, style) // rendering is reading: in no format is it an Update
+	}
+	if v := observe("in a headed table with a skipable column, after mutation and a render in every format, before Update", tc3, want3, live3.V); v != nil {
+		return v
+	}
 	if v := observe("after mutation, before Update", &c, want, live.V); v != nil {
 		return v
 	}
